@@ -1,7 +1,7 @@
-; harness ListingAfterDynamicCreate assert L3-listed-iff-requested-matching-and-permitted expected unsat
+; harness ListingAtStartUp assert L3-listed-iff-requested-matching-and-permitted expected unsat
 (set-logic ALL)
-(declare-const perm_Wallet1_acc9 Bool)
-(assert perm_Wallet1_acc9)
-(define-fun t38 () Bool (not perm_Wallet1_acc9))
-(assert t38)
+(declare-const perm_Wallet1_acc1 Bool)
+(assert perm_Wallet1_acc1)
+(define-fun t53 () Bool (not perm_Wallet1_acc1))
+(assert t53)
 (check-sat)
